@@ -175,3 +175,22 @@ def gen_c14_don(seed):
     return {"format": 1, "property": "C14", "engine": "donsim", "seed": seed, "rng": H(seed, "rng"),
             "init": H(seed, "init") % (2 ** 31), "disc": [round(0.05 + 0.9 * j / 5, 4) for j in range(r.choice((3, 6)))],
             "nets": nets, "fsets": fsets, "conds": conds, "history": hist, "sharing": {}, "fault": None}
+
+
+def gen_c04_don(seed):
+    """One physics-informed DeepONet condition (C04: documented reduction over functions, points and components)."""
+    r = rnd(seed, "gen-don04")
+    kind = r.choice(("data", "grid", "random"))
+    smp = {"kind": kind}
+    if kind == "data":
+        smp["pts"] = [round(r.uniform(0, 1), 3) for _ in range(r.choice((1, 2, 3, 5)))]
+    else:
+        smp["n"] = r.choice((1, 2, 4, 7))
+    cond = {"net": 0, "fset": 0, "sampler": smp, "resid": r.choice(("u_minus_f", "u_minus_c", "du_minus_f")),
+            "c": r.choice((0.5, 1.0, 2.0)), "cls": r.choice(("pi", "pi", "single"))}
+    return {"format": 1, "property": "C04", "engine": "donsim", "seed": seed, "rng": H(seed, "rng"),
+            "init": H(seed, "init") % (2 ** 31), "udim": r.choice((1, 1, 2)),
+            "disc": [round(0.05 + 0.9 * j / 5, 4) for j in range(r.choice((3, 6)))],
+            "nets": [{"thidden": r.choice(([4], [3, 3])), "bhidden": r.choice(([4], [5, 3])), "m": r.choice((2, 3, 5))}],
+            "fsets": [{"fam": r.choice(("lin", "sin", "quad")), "ks": [round(r.uniform(0.1, 1.5), 3) for _ in range(r.choice((1, 2, 3, 4)))]}],
+            "conds": [cond], "evals": r.choice((1, 2, 3)), "fault": None}
